@@ -27,7 +27,7 @@ import re
 from ..core import hx, unhx, unhxs, parallel_map
 
 DRIVERS = ["drv_linenum", "drv_machine"]
-GENERATED = ["LineNum", "HunkCounter", "Handlers", "Markers"]
+GENERATED = ["LineNum", "HunkCounter", "HunkInit", "Handlers", "Markers"]
 
 ANSI = re.compile(r"\x1b\[[0-9;?]*[A-Za-z]|\x1b\]8;[^\x1b\x07]*(?:\x1b\\|\x07)")
 USIZE_MAX = 2 ** 64 - 1
@@ -930,9 +930,11 @@ def gen_diff(rng, blank_ctx=False, wide=True, colour=0.0):
                     raw_lines += 1
                 else:
                     text.append(k + body)
+            other_after = []
             if rng.random() < 0.15:
                 text.append("\\ No newline at end of file")
-            hunks.append(dict(header=header, a=a, c=c, nb=nb, nd=nd, frag=frag, truth=truth))
+                other_after.append(len(truth) - 1)
+            hunks.append(dict(header=header, a=a, c=c, nb=nb, nd=nd, frag=frag, truth=truth, other_after=other_after))
         files.append(dict(old=("/dev/null" if mode == "add" else old), new=("/dev/null" if mode == "del" else new), shown=shown, hunks=hunks))
     diff = "\n".join("" if isinstance(t, tuple) else t for t in text) + "\n"
     control = "\n".join(t[1] if isinstance(t, tuple) else t for t in text) + "\n"
@@ -1022,6 +1024,7 @@ def gen_plain(rng, wide=True):
             last_old = max((i for i, (k, _) in enumerate(kinds) if k in "- "), default=-1)
             last_new = max((i for i, (k, _) in enumerate(kinds) if k in "+ "), default=-1)
             nonl = rng.random() < 0.15
+            other_after = []
             for i, (k, look) in enumerate(kinds):
                 nwords = rng.choice([1, 2, 3, 6, 12, 25])
                 words = [w for w in (rng.choice(WORDS) for _ in range(nwords)) if wide or w.isascii()]
@@ -1044,7 +1047,8 @@ def gen_plain(rng, wide=True):
                 text.append(k + pre + tok + " " + " ".join(words))
                 if nonl and ((i == last_old and k == "-") or (i == last_new and i == len(kinds) - 1)):
                     text.append("\\ No newline at end of file")
-            hunks.append(dict(header=header, a=a, c=c, nb=nb, nd=nd, frag=frag, truth=truth))
+                    other_after.append(i)
+            hunks.append(dict(header=header, a=a, c=c, nb=nb, nd=nd, frag=frag, truth=truth, other_after=other_after))
         files.append(dict(old=old, new=new, shown=new, hunks=hunks))
     diff = "\n".join(text) + "\n"
     return diff, files, dict(style=style, lookalike=lookalike, after_adds=after_adds)
@@ -1290,6 +1294,60 @@ def case_replay(case):
                 control=case.get("control"), plain=case.get("plain"))
 
 
+def whole_request(case):
+    """`linenum.whole <line-buffer-size> <n> {N x<minus file> x<plus file> | H x<@@ line> | L <0 - | 1 + | 2 unchanged | 3 other>}*`"""
+    items = []
+    for f in case["files"]:
+        items.append(f"N {hx(f['old'])} {hx(f['new'])}")
+        for h in f["hunks"]:
+            items.append("H " + hx(h["header"]))
+            for i, t in enumerate(h["truth"]):
+                items.append("L " + str({"-": 0, "+": 1, " ": 2}[t[0]]))
+                if i in h["other_after"]:
+                    items.append("L 3")
+    return f"linenum.whole {case['lbs']} {len(items)} " + " ".join(items)
+
+
+def whole_compare(case, decs, mm):
+    """model rows of the whole input vs what the real binary showed: per hunk the header row (path, position), the
+    width of the number fields (the oracle has checked every cell of the binary against it), and - unified view -
+    the numbers of every row"""
+    if not mm.startswith("ok "):
+        return False, "model: " + mm[:80]
+    fs = mm.split()
+    n, pos, hunks = int(fs[1]), 2, []
+    for _ in range(n):
+        if fs[pos] == "H":
+            hunks.append(dict(path=unhxs(fs[pos + 1]), number=int(fs[pos + 2]), rows=[], widths=set()))
+            pos += 3
+        elif fs[pos] == "R":
+            if not hunks:
+                return False, "model: row before the first header"
+            hunks[-1]["widths"].add(int(fs[pos + 1]))
+            pos += 3
+        else:
+            if not hunks:
+                return False, "model: row before the first header"
+            hunks[-1]["rows"].append((None if fs[pos + 1] == "-" else int(fs[pos + 1]), None if fs[pos + 2] == "-" else int(fs[pos + 2])))
+            hunks[-1]["widths"].add(int(fs[pos + 3]))
+            pos += 5
+    truth = [(f, h) for f in case["files"] for h in f["hunks"]]
+    if len(hunks) != len(truth) or len(decs) != len(truth):
+        return False, f"{len(hunks)} header rows in the model, {len(decs)} shown, {len(truth)} hunks"
+    has_nm = any(q[0] == "ph" and q[1] == "nm" for q in case["fl"].parts)
+    has_np = any(q[0] == "ph" and q[1] == "np" for q in case["fr"].parts)
+    for i, (mh, dec, (f, h)) in enumerate(zip(hunks, decs, truth)):
+        if (mh["path"], mh["number"]) != (dec["path"], dec["number"]):
+            return False, f"hunk {i}: model header {mh['path']!r}:{mh['number']}, shown {dec['path']!r}:{dec['number']}"
+        if mh["widths"] != {digits_width([(h["a"], h["nb"]), (h["c"], h["nd"])])}:
+            return False, f"hunk {i}: model field widths {sorted(mh['widths'])}, the cells shown have {digits_width([(h['a'], h['nb']), (h['c'], h['nd'])])}"
+        if not case["sbs"]:
+            nums = [(a if has_nm else None, b if has_np else None) for a, b in mh["rows"]]
+            if nums != [tuple(x) for x in dec["numbers"]]:
+                return False, f"hunk {i}: model numbers {nums[:6]}, shown {[tuple(x) for x in dec['numbers']][:6]}"
+    return True, ""
+
+
 def eval_binary(ctx, rep, cases, mdl):
     results = parallel_map(lambda c: check_binary_case(ctx, c), cases)
     mreqs, mmeta = [], []
@@ -1351,10 +1409,20 @@ def eval_binary(ctx, rep, cases, mdl):
                 mreqs.append(f"linenum.unified_hunk {case['lbs']} {h['a']} {h['c']} {len(kinds)} " + " ".join(map(str, kinds)))
                 mreqs[-1] = mreqs[-1].strip()
                 mmeta.append(("rows", case, f, h, dec))
+        # the whole input through the model of the per-hunk re-initialisation (Whole.runWhole): file names, every
+        # `@@` line as text, every hunk line by kind, `\ No newline` lines where they stand
+        if not case["blank"] and all("other_after" in h for f in case["files"] for h in f["hunks"]):
+            mreqs.append(whole_request(case))
+            mmeta.append(("whole", case, None, None, res["hunks"]))
     if mdl and mreqs:
         model = mdl.ask(mreqs)
         for (op, case, f, h, dec), mm in zip(mmeta, model):
             ok = False
+            if op == "whole":
+                ok, why = whole_compare(case, dec, mm)
+                rep.count("binary.whole:" + ("sbs" if case["sbs"] else "unified"))
+                rep.corr_case("binary.whole", ok, dict(kind="binary-whole", args=case["args"], diff=case["diff"][:1500], why=why, model=mm[:600]))
+                continue
             if op == "header":
                 # git strips the a/ b/ prefixes before delta stores the paths
                 if mm.startswith("ok ") and mm != "ok none":
